@@ -1207,7 +1207,17 @@ impl Writer {
         no_longer_relevant.extend(pending_gaps);
       } else {
         // Reader not pending gap on unsent_sn. Get the cache change from topic cache
-        if let Some(cc) = self.history_buffer.get_by_sn(unsent_sn) {
+        if self
+          .history_buffer
+          .get_by_sn(unsent_sn)
+          .and_then(|cc| cc.write_options.to_single_reader())
+          .is_some_and(|single_reader_guid| single_reader_guid != reader_guid)
+        {
+          // The change was written for some other single reader, but this
+          // reader has no pending GAP for it (e.g. it was matched only after
+          // the write). It must never get the data, so answer with a GAP.
+          no_longer_relevant.insert(unsent_sn);
+        } else if let Some(cc) = self.history_buffer.get_by_sn(unsent_sn) {
           // // DEBUG
           // if self.my_guid.entity_id == EntityId::SEDP_BUILTIN_PUBLICATIONS_WRITER
           //   && reader_proxy.remote_reader_guid.prefix != self.my_guid.prefix
